@@ -10,6 +10,7 @@ import ZstdVerif.Lemmas.ExecRT
 import ZstdVerif.Lemmas.LitRT
 import ZstdVerif.Lemmas.SeqRT
 import ZstdVerif.Lemmas.FrameRT
+import ZstdVerif.Lemmas.BlockRT
 namespace ZstdVerif.Props.C01
 open ZstdVerif
 
@@ -359,6 +360,50 @@ theorem multi_frame_roundtrip (segs : List Segment) (hok : ∀ s ∈ segs, SegOK
     (hcap : (contentOf segs).size ≤ cap) (o : Frame.Opts) (hml : o.magicless = false) (hmb : o.maxBlockSize = 0) :
     ∃ traces, Frame.decompressAll (serializeSegs segs) dict cap o = .ok (contentOf segs, traces) :=
   FrameRT.multi_frame_roundtrip segs hok dict cap hcap o hml hmb
+
+/-! ### the round trip of compressed blocks and of whole frames containing them: decode(serialize(ANY valid parse)) = x -/
+
+open Gen FSE SeqEnc LitEnc BlockEnc Rep BlockRT in
+/-- **block_roundtrip**: let `x` be a block's content, `prev` the frame content before it, `dict` the dictionary content, and `(lits, raws)` ANY
+parse of `x` that is valid against that history (`Exec.ValidParse`: what a match finder may legally output - overlapping matches, repeat
+offsets, dictionary matches included).  Store the offsets the way the compressor does (ZSTD_finalizeOffBase / ZSTD_updateRep along its history),
+write the block body the way ZSTD_entropyCompressSeqStore_internal does (literals section raw / RLE / Huffman, nbSeq field, modes byte, RLE
+symbols, the three-state FSE bit stream; sequence tables predefined or RLE).  Then `Block.decodeBlock` (ZSTD_decompressBlock_internal) on those
+bytes returns exactly the content, and leaves the decoder's repeat-offset history equal to the compressor's - so the next block starts in
+lock step. -/
+theorem block_roundtrip (dict pre prev x lits : ByteArray) (raws : List SeqRT.RawSeq) (c : LitChoice) (t : Tables)
+    (src : Bytes) (start : Nat) (ent : Block.Entropy) (bsm cap : Nat)
+    (hv : Exec.ValidParse dict prev x lits (raws.map toSeq))
+    (hx : x.size ≤ bsm) (hb17 : bsm ≤ 2 ^ 17) (hoff : ∀ q ∈ raws, q.rawOffset + 3 < 2 ^ 32)
+    (hrep : RepPos (SeqRT.repOf ent.rep))
+    (hc : LitOK c lits) (hok : CodesOK t (SeqRT.storeAll (SeqRT.repOf ent.rep) raws).1)
+    (H : FrameRT.Holds src start (serializeBlockBody c lits t (SeqRT.storeAll (SeqRT.repOf ent.rep) raws).1))
+    (hsize : (serializeBlockBody c lits t (SeqRT.storeAll (SeqRT.repOf ent.rep) raws).1).size ≤ bsm)
+    (hcap : pre.size + prev.size + x.size ≤ cap) :
+    ∃ ent2 tr, Block.decodeBlock src start (serializeBlockBody c lits t (SeqRT.storeAll (SeqRT.repOf ent.rep) raws).1).size ent dict
+        { out := pre ++ prev, frameStart := pre.size, cap := cap } bsm = .ok (pre ++ prev ++ x, ent2, tr) ∧
+      SeqRT.repOf ent2.rep = (SeqRT.storeAll (SeqRT.repOf ent.rep) raws).2 ∧ RepPos (SeqRT.repOf ent2.rep) ∧ tr.nbSeq = raws.length :=
+  BlockRT.block_roundtrip dict pre prev x lits raws c t src start ent bsm cap hv hx hb17 hoff hrep hc hok H hsize hcap
+
+open HeaderW BlockEnc BlockRT in
+/-- **roundtrip** (the headline statement of this property, for the modelled back end): for every input `x`, every accepted frame-parameter
+tuple, and EVERY tiling of `x` into raw blocks, RLE blocks and compressed blocks each carrying ANY valid parse of its stretch (`FrameOK2`), the
+frame written the way the compressor's back end writes it is decoded by the full decoder model (ZSTD_decompress) to exactly `x`.  The match
+finders, the optimal parser, the block splitter and the mode heuristics only ever choose WHICH valid parse and tiling to emit; the theorem
+quantifies over all of them.  Scope: sequence tables in predefined or RLE mode, Huffman tree descriptions in direct form (FSE-described tables
+and treeless literals are decoded by the model and checked per frame, but not in the serializer yet). -/
+theorem roundtrip (a : HArgs) (bs : List BlockChoice2) (x : ByteArray) (dict : Frame.Dict)
+    (hok : FrameOK2 dict.content a bs x) (hrep0 : SeqRT.repOf dict.ent.rep = repStart)
+    (cap : Nat) (hcap : x.size ≤ cap) (o : Frame.Opts) (hml : o.magicless = false) (hmb : o.maxBlockSize = 0) :
+    ∃ traces, Frame.decompressAll (serializeFrame2 a bs x) dict cap o = .ok (x, traces) :=
+  BlockRT.frame_roundtrip_compressed a bs x dict hok hrep0 cap hcap o hml hmb
+
+open BlockEnc BlockRT in
+/-- the predefined tables accept every sequence of the format's usual ranges (offsets below 2^29 - 3): no table hypothesis is left for them -/
+theorem codesOK_predefined (rep : Rep.R) (raws : List SeqRT.RawSeq)
+    (h : ∀ q ∈ raws, q.litLength < 2 ^ 17 ∧ q.mlBase < 2 ^ 17 ∧ 1 ≤ q.rawOffset ∧ q.rawOffset + 3 < 2 ^ 29) :
+    CodesOK {} (SeqRT.storeAll rep raws).1 :=
+  BlockRT.codesOK_predefined rep raws h
 
 /-! ### sequence execution: any valid parse regenerates its source -/
 
